@@ -5,7 +5,7 @@
    nothing after the list); for the code it is part of C19_source_* below: the deep-embedded
    program faults on any read outside the NUL-terminated input, and the theorems say it returns.
    Statements only; proofs in CharsetFacts.v and ImpFacts.v. *)
-From Sbdf Require Import Charset CharsetFacts Imp Gen.Prog ImpFacts.
+From Sbdf Require Import Charset CharsetFacts Imp Gen.Prog ImpBase ImpFacts.
 
 Theorem C19_roundtrip : forall s, Forall latin1 s -> utf8_to_iso (iso_to_utf8 s) = s.
 Proof. exact iso_utf8_iso_roundtrip. Qed.
